@@ -77,7 +77,13 @@ impl<'a> G<'a> {
             4 => ReferenceTypeId::HierarchicalReferences.into(),
             5 => ReferenceTypeId::HasTypeDefinition.into(),
             6 => ObjectId::ObjectsFolder.into(), // not a reference type
-            _ => NodeId::new(self.ns, 4242u32),
+            _ => {
+                if self.r.chance(0.5) {
+                    ReferenceTypeId::HasSubtype.into()
+                } else {
+                    NodeId::new(self.ns, 4242u32)
+                }
+            }
         }
     }
     fn variant(&mut self, depth: u32) -> Variant {
@@ -457,6 +463,24 @@ impl<'a> G<'a> {
                 references_to_add: Some(
                     (0..n)
                         .map(|_| {
+                            if self.r.chance(0.12) {
+                                // a client-made cycle in a type hierarchy (reference types or object types)
+                                let which = self.r.below(3);
+                                let (a, b): (NodeId, NodeId) = match which {
+                                    0 => (ReferenceTypeId::HasComponent.into(), ReferenceTypeId::HierarchicalReferences.into()),
+                                    1 => (ReferenceTypeId::Organizes.into(), ReferenceTypeId::References.into()),
+                                    _ => (ObjectTypeId::FolderType.into(), ObjectTypeId::BaseObjectType.into()),
+                                };
+                                let class = if which < 2 { NodeClass::ReferenceType } else { NodeClass::ObjectType };
+                                return AddReferencesItem {
+                                    source_node_id: a,
+                                    reference_type_id: ReferenceTypeId::HasSubtype.into(),
+                                    is_forward: true,
+                                    target_server_uri: UAString::null(),
+                                    target_node_id: b.into(),
+                                    target_node_class: class,
+                                };
+                            }
                             let a = self.node();
                             let b = if self.r.chance(0.2) { a.clone() } else { self.node() };
                             AddReferencesItem {
@@ -464,7 +488,11 @@ impl<'a> G<'a> {
                                 reference_type_id: self.reftype(),
                                 is_forward: self.r.chance(0.5),
                                 target_server_uri: if self.r.chance(0.95) { UAString::null() } else { UAString::from("urn:x") },
-                                target_node_id: b.into(),
+                                target_node_id: ExpandedNodeId {
+                                    node_id: b,
+                                    namespace_uri: if self.r.chance(0.85) { UAString::null() } else { UAString::from(*self.r.pick(&["http://opcfoundation.org/UA/", "urn:sim:swarm", "urn:nowhere", ""])) },
+                                    server_index: if self.r.chance(0.93) { 0 } else { self.r.below(3) as u32 },
+                                },
                                 target_node_class: *self.r.pick(&[NodeClass::Object, NodeClass::Variable, NodeClass::Unspecified, NodeClass::Method]),
                             }
                         })
@@ -725,7 +753,7 @@ impl Scenario for C33 {
             real: vec!["MessageHandler and every service it dispatches", "AddressSpace / References / relative_path", "events::event_filter / operator", "subscriptions (timer task) and monitored items", "method implementations", "server transport tasks, Chunker, TcpCodec"],
             stubbed: vec!["TCP socket", "historical data providers (none registered)"],
             assumptions: vec!["requests are structurally valid (they are built from the typed request structures and encoded by the real encoder); byte-level malformation is C02/C09's domain"],
-            fault_kinds: vec!["randomised_request", "timer_tick_after_request", "event_raised"],
+            fault_kinds: vec!["randomised_request", "timer_tick_after_request", "event_raised", "type_hierarchy_cycle"],
         }
     }
     fn runs(&self, tier: Tier) -> u64 {
@@ -750,6 +778,11 @@ impl Scenario for C33 {
         }
         for _ in 0..n {
             steps.push(json!({"kind": *rng.pick(&enabled), "rseed": rng.next_u64() >> 12, "ticks": rng.below(4), "event": rng.chance(0.2)}));
+        }
+        if rng.chance(0.08) {
+            // a client-made cycle in a type hierarchy, then requests that walk the hierarchy
+            let at = rng.urange(0, steps.len());
+            steps.insert(at, json!({"kind": "type_cycle", "which": rng.below(3), "ticks": 1}));
         }
         // swarm knob: some runs use a signed channel, so that the session has a real nonce
         let secured = rng.chance(0.12);
@@ -812,6 +845,47 @@ async fn run(plan: &Value, ctx: &mut Ctx) {
         ctx.step(i);
         let kind = s["kind"].as_str().unwrap_or("read").to_string();
         let mut rng = Rng::new(s["rseed"].as_u64().unwrap_or(1));
+        if kind == "type_cycle" {
+            ctx.fault("type_hierarchy_cycle");
+            let (a, b): (NodeId, NodeId) = match s["which"].as_u64().unwrap_or(0) {
+                0 => (ReferenceTypeId::HasComponent.into(), ReferenceTypeId::HierarchicalReferences.into()),
+                1 => (ReferenceTypeId::Organizes.into(), ReferenceTypeId::References.into()),
+                _ => (ObjectTypeId::FolderType.into(), ObjectTypeId::BaseObjectType.into()),
+            };
+            let add: SupportedMessage = AddReferencesRequest {
+                request_header: c.header(),
+                references_to_add: Some(vec![AddReferencesItem { source_node_id: a, reference_type_id: ReferenceTypeId::HasSubtype.into(), is_forward: true, target_server_uri: UAString::null(), target_node_id: b.into(), target_node_class: if s["which"].as_u64().unwrap_or(0) < 2 { NodeClass::ReferenceType } else { NodeClass::ObjectType } }]),
+            }
+            .into();
+            let r1 = c.call(add).await;
+            let browse: SupportedMessage = BrowseRequest {
+                request_header: c.header(),
+                view: ViewDescription { view_id: NodeId::null(), timestamp: DateTime::null(), view_version: 0 },
+                requested_max_references_per_node: 0,
+                nodes_to_browse: Some(vec![BrowseDescription { node_id: ObjectId::ObjectsFolder.into(), browse_direction: BrowseDirection::Both, reference_type_id: ReferenceTypeId::Aggregates.into(), include_subtypes: true, node_class_mask: 0, result_mask: 63 }]),
+            }
+            .into();
+            let r2 = c.call(browse).await;
+            let tr: SupportedMessage = TranslateBrowsePathsToNodeIdsRequest {
+                request_header: c.header(),
+                browse_paths: Some(vec![BrowsePath {
+                    starting_node: ObjectId::RootFolder.into(),
+                    relative_path: RelativePath { elements: Some(vec![RelativePathElement { reference_type_id: ReferenceTypeId::NonHierarchicalReferences.into(), is_inverse: false, include_subtypes: true, target_name: QualifiedName::new(0, "Objects") }]) },
+                }]),
+            }
+            .into();
+            let r3 = c.call(tr).await;
+            ctx.log(&format!("type_cycle>{}/{}/{}", l2::recv_kind(&r1), l2::recv_kind(&r2), l2::recv_kind(&r3)), "");
+            for (name, r) in [("AddReferences", &r1), ("Browse", &r2), ("TranslateBrowsePaths", &r3)] {
+                if !matches!(r, Recv::Msg(_, _)) {
+                    ctx.violate("C33", "request-not-answered", "type_cycle", format!("{} around a client-made HasSubtype cycle was not answered: {}", name, l2::recv_kind(r)));
+                }
+            }
+            if !c.is_open() {
+                break;
+            }
+            continue;
+        }
         let hdr = c.header();
         let req = {
             let mut g = G {
